@@ -42,6 +42,7 @@ MANIFEST = {
 UNDEFINED = ["nosuchattr", "x", "zz_top", "__deepcopy__", "__copy__", "__setstate__", "__getnewargs_ex__", "__getnewargs__", "__reduce_foo__"]
 MODEL_ONLY = ["__bool__", "count", "append", "to_etree", "spec", "__class__", "__reduce_ex__", "__getstate__", "__len__"]
 SENTINEL = object()
+SPLIT = {}        # index of the case -> (head, [query terms]) for pinpointing a disagreement
 
 
 def translate():
@@ -165,8 +166,10 @@ def make_case(ctx, obj, blank=False):
         enc = H.enc_inst(ctx, inst)       # after the reads: the dictionary of spec attributes is not touched by them
     cn = sorted({type(n).__name__ for _, n in nodes} | {"CURRENCY", "ORIGCURRENCY"})
     nm = "[%s]" % ";".join("(%s,%d)" % (H.cs(c), ctx.handle(c)) for c in cn)
-    term = "LCase %s %s [%s]" % (enc, nm, ";".join("(%s,%s)" % (H.cs(n), enc_outcome(ctx, o, paths)) for n, o in qs))
-    return term, qs
+    head = "LCase %s %s" % (enc, nm)
+    qstr = ["(%s,%s)" % (H.cs(n), enc_outcome(ctx, o, paths)) for n, o in qs]
+    SPLIT[len(SPLIT)] = (head, qstr)
+    return "%s [%s]" % (head, ";".join(qstr)), qs
 
 
 # ------------------------------------------------------------------ instance <-> JSON (corpus / replay files)
@@ -500,6 +503,7 @@ def corpus_instances(ctx):
 # ------------------------------------------------------------------ run
 def run(rep, tier, rng):
     ctx = H.Ctx()
+    SPLIT.clear()
     thorough = tier == "thorough"
     if ctx.d["problems"]:
         rep.broken.append("schema translator not complete: %s" % ctx.d["problems"][:3])
@@ -560,7 +564,7 @@ def run(rep, tier, rng):
     if bad:
         pin_items, pin_meta = [], []
         for i in bad[:6]:
-            head, qs = split_case(items[i])
+            head, qs = SPLIT[i]
             for q in qs:
                 pin_items.append("%s [%s]" % (head, q)); pin_meta.append((i, q))
         try:
@@ -580,25 +584,6 @@ def to_json_safe(ctx, obj):
         return to_json(ctx, obj)
     except Exception as e:
         return {"unserialisable": repr(e)}
-
-
-def split_case(term):
-    """'LCase inst names [q1;q2;...]' -> ('LCase inst names', [q...]); queries are '(name,(...))' at bracket depth 1 of the last list"""
-    k = term.rfind("] [") + 2
-    head, body = term[:k], term[k + 1:-1]
-    qs, depth, cur = [], 0, ""
-    for ch in body:
-        if ch in "([":
-            depth += 1
-        elif ch in ")]":
-            depth -= 1
-        if ch == ";" and depth == 0:
-            qs.append(cur); cur = ""
-        else:
-            cur += ch
-    if cur:
-        qs.append(cur)
-    return head, qs
 
 
 def replay(obj):
